@@ -27,7 +27,7 @@ ASSUMPTIONS = ['the client keeps reading (it may pause for a bounded time)',
                'is about delivery, not content (content is C06)']
 TIERS = {
     'quick': {'runs': 8000, 'budget_s': 40, 'max_out': 6000, 'max_units': 300},
-    'thorough': {'runs': 600000, 'budget_s': 900, 'max_out': 8 << 20, 'max_units': 5000},
+    'thorough': {'runs': 600000, 'budget_s': 900, 'watchdog_s': 600, 'max_out': 2 << 20, 'max_units': 4000},
 }
 
 
